@@ -37,7 +37,7 @@ USE_SYMBOLS = ('encrypt', 'decrypt', 'sign', 'signature_verify', 'mac', 'derive_
 
 def plan(tier):
     return {
-        'level': 'exploration', 'shards': 16, 'budget_s': 120 if tier == 'quick' else 700,
+        'level': 'exploration', 'shards': 16, 'budget_s': 240 if tier == 'quick' else 700,
         'exhaustive': True,
         'rule': 'per (object kind, usage mask) variant: breadth-first closure of the reachable object '
                 'states (state attribute, names, groups, existence), every one of %d operation symbols '
